@@ -25,7 +25,11 @@ theorem grammar_inline_rules :
     ∀ a ∈ allNT, (a.name ∈ Gen.Grammar.inlineRules ↔ a.inline = true) := by decide +kernel
 theorem grammar_ignored : Gen.Grammar.ignored = ["COMMENT", "WHITESPACE"] := by decide
 /-- whitespace (incl. form feed) and `//` comments are what the lexer ignores -/
-theorem grammar_ignored_patterns : Gen.Grammar.ignoredPatterns = ignoredPatterns := by rfl
+/- (compared as Python's regex parser reads the two patterns — character classes as sorted code points, escapes
+   resolved — so that an equivalent spelling, e.g. another order inside the class, `//` for `\/\/`, `[^\n]` for `.`,
+   is the same pattern; `Cel.Grammar.ignoredPatterns` keeps the spelling of today's cel.lark for the reader) -/
+theorem grammar_ignored_patterns : Gen.Grammar.ignoredPatternsCanon =
+    [("COMMENT", "[set{47} set{47} rep(0,inf)[any-but-newline]]"), ("WHITESPACE", "[rep(1,inf)[set{9,10,12,13,32}]]")] := by decide
 /-- the tree-shaping options of the `Lark(...)` call -/
 theorem grammar_options :
     Gen.Grammar.larkOptions = [("parser", "'lalr'"), ("start", "'expr'"), ("maybe_placeholders", "False"), ("priority", "'invert'")]
